@@ -144,6 +144,7 @@ func props() map[string]Prop {
 			Units: []Unit{
 				{Name: "fsbucket", Module: "godev", Pkg: "internal/storage", Harness: "godev_storage", Run: "^TestVerifC18$", Timeout: 20 * time.Minute},
 				{Name: "services", Module: "godev", Pkg: "cmd/telemetrygodev", Harness: "godev_server", Run: "^TestVerifC18Services$", Timeout: 20 * time.Minute},
+				{Name: "worker", Module: "godev", Pkg: "cmd/worker", Harness: "godev_worker", Run: "^TestVerifC18Worker$", Timeout: 20 * time.Minute},
 			},
 			Assume: []string{"stored object names are ordinary slash-separated components (no '.', '..' or empty components) and no stored name is a directory-prefix of another; requests to the services may spell anything", "the GCS backend needs network credentials and is not exercised"},
 		},
